@@ -1,7 +1,7 @@
 #!/bin/sh
 # usage: mutant_patch.sh <patch.diff> <check id>...  - like mutant.sh but applies a patch file (private scratch copy)
 P=$1; shift
-D=/tmp/mut-$1
+D=${MUTDIR:-/tmp/mut-$1}
 mkdir -p $D/repo $D/harness
 rsync -a --delete --exclude target --exclude .git /repo/ $D/repo/
 rsync -a --exclude target /verif/harness/ $D/harness/
